@@ -1,6 +1,7 @@
 package main
 
 import (
+	"go/types"
 	"strconv"
 	"regexp"
 	"fmt"
@@ -32,10 +33,11 @@ func (e *Engine) blockClosure() map[*ssa.Function]bool {
 }
 
 func runC07(e *Engine, r *Report, tier string) {
-	r.Explanation = "C07, necessary conditions only (state reachability is not decided; the ledger is per site, not per state). Closure: every fx-core function reachable through the module-scoped call graph (static calls, closures, interface calls resolved to fx-core implementers) from Begin/End/PreBlock entry points. R1 ledger of halt-capable sites in that closure — explicit panic(), calls to Must*/NewCoin/Uint64-style panicking helpers, divisions (Quo* of math.Int/LegacyDec, whose divisor must be a non-zero constant, a package-level value, or excluded from zero by a dominating guard on that very expression), single-value type assertions — each must be discharged by: D1 codec round trip (MustUnmarshal of a value read from a key family whose every writer marshals the same Go type), D2 address provenance (argument of a Must* bech32 parser is rooted only in address-typed sources: a proto field whose name ends in Address/`Sender`/`Receiver`, or AccAddress.String(); the generated String() of a whole proto message is a definite violation), D3 a dominating guard / error check that makes the bad case unreachable (panic in an `err != nil` branch of a call whose failure is excluded is NOT accepted: it stays a ledger entry), D4 a reviewed single-symbol exemption with its reason (table in the checker). R2 the slashing loops are siblings: each hands the iterated oracle's OracleAddress to the slash primitive, skips oracles that joined later, tests the confirmation map by external address and advances its cursor after the loop. R3 error returns of the gov EndBlocker come only from SDK-collection calls or fx-core helpers whose own errors come from storage/keeper APIs; R4 a proposal-queue entry is removed under the field values it was filed under: no store to those fields can reach the removal. Not decided: that every reachable state completes."
+	r.Explanation = "C07, necessary conditions only (state reachability is not decided; the ledger is per site, not per state). Closure: every fx-core function reachable through the module-scoped call graph (static calls, closures, interface calls resolved to fx-core implementers) from Begin/End/PreBlock entry points. R1 ledger of halt-capable sites in that closure — explicit panic(), calls to Must*/NewCoin/Uint64-style panicking helpers, divisions (Quo* of math.Int/LegacyDec, whose divisor must be a non-zero constant, a package-level value, or excluded from zero by a dominating guard on that very expression), single-value type assertions — each must be discharged by: D1 codec round trip (MustUnmarshal of a value read from a key family whose every writer marshals the same Go type), D2 address provenance (argument of a Must* bech32 parser is rooted only in address-typed sources: a proto field whose name ends in Address/`Sender`/`Receiver`, or AccAddress.String(); the generated String() of a whole proto message is a definite violation), D3 a dominating guard / error check that makes the bad case unreachable (panic in an `err != nil` branch of a call whose failure is excluded is NOT accepted: it stays a ledger entry), D4 a reviewed single-symbol exemption with its reason (table in the checker). R2 the slashing loops are siblings: each hands the iterated oracle's OracleAddress to the slash primitive, skips oracles that joined later, tests the confirmation map by external address and advances its cursor after the loop. R3 error returns of the gov EndBlocker come only from SDK-collection calls or fx-core helpers whose own errors come from storage/keeper APIs; R4 a proposal-queue entry is removed under the field values it was filed under: no store to those fields can reach the removal. R5 every decimal that block processing parses with the error discarded is rooted in a record field whose type's validator parses that field (error -> refused) on every accepting path (fx-core types checked, dependency types trusted). Not decided: that every reachable state completes."
 	r.Rule("R1", "halt-capable sites in the block-processing closure are discharged (D1-D4)", 10, "sites found in the closure")
 	r.Rule("R2", "slashing loops agree (argument, start-height skip, confirm-map test, cursor)", 3, "callers of the slash primitive")
 	r.Rule("R3", "gov EndBlocker error returns classified", 1, "")
+	r.Rule("R5", "a decimal parsed with its error discarded in block processing comes from a field its type's validator always parses", 4, "NewDecFromStr calls with unused error in the closure")
 	r.Rule("R4", "a queue entry is removed under the field values it was filed under (no rewrite of those fields can reach the removal)", 1, "queue removals in end-block callbacks keyed by record fields")
 
 	closure := e.blockClosure()
@@ -342,6 +344,108 @@ func runC07(e *Engine, r *Report, tier string) {
 		if n4 == 0 {
 			r.Fail("R4", "queue removals", "", "UNRESOLVED-ANCHOR: no queue removal keyed by record fields in the gov end blocker")
 		}
+	}
+
+	// ---------- R5: a decimal parsed with its error discarded was validated when it was stored ----------
+	// `d, _ := LegacyNewDecFromStr(s)` yields a Dec with a nil big.Int when s does not parse; the first method call on it
+	// panics. Where block processing does that, s must come from a field whose type refuses unparsable values in its
+	// validator on every accepting path (for an fx-core type: checked here; for an SDK type: trusted).
+	n5 := 0
+	for _, fn := range fns {
+		fn := fn
+		allCalls(fn, func(c ssa.CallInstruction) {
+			cl, ok := c.(*ssa.Call)
+			if !ok || !strings.Contains(callName(cl), "NewDecFromStr") || len(cl.Call.Args) != 1 {
+				return
+			}
+			errUsed := false
+			for _, ref := range *cl.Referrers() {
+				if ex, ok := ref.(*ssa.Extract); ok && ex.Index == 1 && len(*ex.Referrers()) > 0 {
+					errUsed = true
+				}
+			}
+			if errUsed {
+				return
+			}
+			n5++
+			base := e.FnKey(fn) + "|unchecked decimal " + regNames.ReplaceAllString(vkey(cl.Call.Args[0], 0), "")
+			type fld struct {
+				name string
+				t    types.Type
+			}
+			var roots []fld
+			other := ""
+			depAcc := 0
+			e.Slice(cl.Call.Args[0], SliceOpts{MaxDepth: 10, IntoCallees: true, IntoCallers: true}, func(x ssa.Value) Verdict {
+				if n, t, ok := fieldName(x); ok {
+					roots = append(roots, fld{n, t})
+					return Accept
+				}
+				switch y := x.(type) {
+				case *ssa.Const:
+					return Accept
+				case *ssa.Call:
+					if y.Call.StaticCallee() == nil || y.Call.StaticCallee().Blocks == nil {
+						// an accessor of a dependency's record (params.GetThreshold()): that module validates it
+						if rt := recvTypeName(y); rt != "" && !strings.Contains(rt, ModPath) && strings.HasPrefix(callName(y), "Get") {
+							depAcc++
+							return Accept
+						}
+						other = callName(y) + "()"
+						return Reject
+					}
+				}
+				return Continue
+			})
+			if len(roots) == 0 && depAcc > 0 && other == "" {
+				r.Ok("R5", base, e.InstrPos(c), "accessor of a dependency's record: validated by that module (trusted)")
+				return
+			}
+			if len(roots) == 0 {
+				r.Undecided("R5", base, e.InstrPos(c), "the parsed string is not rooted in a record field ("+other+")")
+				return
+			}
+			for _, f := range roots {
+				tn := namedTypeName(f.t)
+				ck := base + " <- " + lastDot(tn) + "." + f.name
+				if !strings.HasPrefix(tn, ModPath) && !strings.HasPrefix(strings.TrimPrefix(tn, "*"), ModPath) {
+					r.Ok("R5", ck, e.InstrPos(c), "field of a dependency's type: validated by that module (trusted)")
+					continue
+				}
+				var val *ssa.Function
+				for _, T := range []types.Type{f.t, types.NewPointer(f.t)} {
+					for _, mn := range []string{"ValidateBasic", "Validate"} {
+						if m := e.MethodOf(T, mn); m != nil && val == nil {
+							val = m
+						}
+					}
+				}
+				if val == nil {
+					r.Fail("R5", ck, e.InstrPos(c), "the field's type has no validator: nothing refuses a value that does not parse, and the unchecked parse in block processing then yields a nil decimal (nil dereference in every block)")
+					continue
+				}
+				fname := f.name
+				parses := func(i ssa.Instruction) bool {
+					pc, ok := i.(*ssa.Call)
+					if !ok || !strings.Contains(callName(pc), "NewDecFromStr") || len(pc.Call.Args) != 1 {
+						return false
+					}
+					if n, _, ok := fieldNameOfLoad(stripConv(pc.Call.Args[0])); !ok || n != fname {
+						return false
+					}
+					okE, _ := errorHandled(pc)
+					return okE
+				}
+				if ret := MustPassThrough(val, nil, parses); ret != nil {
+					r.Fail("R5", ck, e.InstrPos(ret), e.FnKey(val)+" can accept a value whose "+fname+" was not parsed (e.g. an empty string): block processing parses it with the error discarded and the first use of the nil decimal panics — in every block, since the record stays")
+				} else {
+					r.Ok("R5", ck, e.InstrPos(c), e.FnKey(val)+" parses "+fname+" (error -> refused) on every accepting path")
+				}
+			}
+		})
+	}
+	if n5 == 0 {
+		r.Fail("R5", "unchecked decimal parses", "", "UNRESOLVED-ANCHOR: no decimal parse with a discarded error in the block-processing closure (the gov tally has several)")
 	}
 }
 
